@@ -172,6 +172,18 @@ def pGapName : P (Bytes × Bytes) := fun ts =>
     | none => none
     | some (n, r') => some ((g, n), r')
 
+def pScript (s : String) : Option (List Step) :=
+  if s == "-" then some [] else
+  s.toList.mapM (fun c =>
+    if c = 'p' then some Step.parse else if c = 's' then some Step.skip
+    else if c = 'h' then some Step.headerBody else if c = 'k' then some Step.headerSkip else none)
+
+def sItem : Item → List String
+  | .q q => "Q" :: sQuestion q
+  | .r r => "R" :: sResource r
+  | .h h => ["H", hexOfBytes h.name, toString h.typ, toString h.cls, toString h.ttl, toString h.length]
+  | .skipped => ["S"]
+
 def step (_ : Unit) (line : String) : Unit × String :=
   let out : String :=
     match tokens line with
@@ -192,6 +204,13 @@ def step (_ : Unit) (line : String) : Unit × String :=
       match parseBytes b with
       | some b => (match skipMessage b with | .ok o => s!"ok {o}" | .error e => s!"err {e.tag}")
       | none => "bad-op"
+    | ["walk", b, sc] =>
+      match parseBytes b, pScript sc with
+      | some b, some sc =>
+        (match walkMessage b sc with
+         | .ok (its, o) => " ".intercalate (["ok", toString o] ++ its.flatMap sItem)
+         | .error e => s!"err {e.tag}")
+      | _, _ => "bad-op"
     | ["uname", b, o] =>
       match parseBytes b, parseNat o with
       | some b, some o =>
